@@ -148,3 +148,24 @@ Theorem c16_latest_observed_old_refuted_empty_key :
   exists acts s, run_sys step_old (init_sys [K5]) acts = Some s /\ quiescent s /\ last_observed s = Some [].
 Proof. exact latest_observed_old_refuted_empty_key. Qed.
 Print Assumptions c16_latest_observed_old_refuted_empty_key.
+
+(* ---- several subscribers, subscribing and closing in any order (the tracker's map, ids from a tracker-wide counter) ---- *)
+(* [sb_exp] is the specification's value for a subscriber: its initial value, then the last key published for its
+   prefix while it was open (Db/SeqWait.v, tstep) *)
+Theorem c16_latest_observed_all_waiters : forall acts s,
+  In s (t_subs (trun alloc_counter acts)) -> sb_open s = true -> sub_last s = sb_exp s.
+Proof. exact tracker_latest_observed. Qed.
+Print Assumptions c16_latest_observed_all_waiters.
+
+Theorem c16_closed_waiter_unregistered : forall acts s,
+  In s (t_subs (trun alloc_counter acts)) -> sb_open s = false -> sb_reg s = false.
+Proof. exact tracker_closed_unregistered. Qed.
+Print Assumptions c16_closed_waiter_unregistered.
+
+(* with ids that are unique only among the waiters currently registered for the prefix (len(map)+1), a subscriber
+   loses its slot to a later one and misses every key from then on *)
+Theorem c16_latest_observed_len_ids_refuted :
+  exists acts s, In s (t_subs (trun alloc_len acts)) /\ sb_open s = true /\ sb_h s = 1%nat /\
+                 sb_exp s = Some K6 /\ sub_last s = Some K5.
+Proof. exact tracker_latest_observed_len_ids_refuted. Qed.
+Print Assumptions c16_latest_observed_len_ids_refuted.
